@@ -106,3 +106,38 @@ mut("c12_clip_before_default", "C12", "variable.py", '''        # Applying defau
             self._value = None
         # Applying default values
         if not np.isnan(self.default_value):''', "clip before default, commit unclipped default")
+
+# ---------------------------------------------------------------- reverts of the three fix: commits (the original defects)
+mut("d1_revert_numpy_scalar", ["C02", "C12"], "variable.py",
+    "value = np.array(self.defuzzifier.defuzzify(self.fuzzy, self.minimum, self.maximum))",
+    "value = self.defuzzifier.defuzzify(self.fuzzy, self.minimum, self.maximum)",
+    "defect D1 as found at the pinned commit")
+mut("d3_revert_builtin_min_max", "C02", "factory.py",
+    "np.minimum,  # element-wise minimum of two operands (scalars or arrays)",
+    "min,", "defect D3 as found at the pinned commit (min only)")
+
+# ---------------------------------------------------------------- C02
+mut("c02_no_transpose", "C02", "term.py", "            np.atleast_2d(self.degree).T,\n", "            np.atleast_2d(self.degree),\n",
+    "Activated.membership broadcasts degrees along the wrong axis")
+mut("c02_setter_reversed", "C02", "engine.py", "            v.value = values[:, i]\n", "            v.value = values[:, -1 - i] if values.shape[0] > 1 else values[:, i]\n",
+    "matrix setter assigns the columns in reverse for real batches")
+mut("c02_lom_global_max", "C02", "defuzzifier.py",
+    "        y_max = (y > 0) & (y == y.max(axis=1, keepdims=True))\n        lom = np.where(y_max, x, np.nan)",
+    "        y_max = (y > 0) & (y == y.max())\n        lom = np.where(y_max, x, np.nan)",
+    "LargestOfMaximum uses the maximum over the whole batch")
+mut("c02_rectangle_scalar_path", "C02", "term.py",
+    "        y = self.height * np.where(np.isnan(x), np.nan, 1.0) * ((s <= x) & (x <= e))\n        return y",
+    "        if x.ndim == 0:\n            return scalar(self.height if s <= x < e else (np.nan if np.isnan(x) else 0.0))\n"
+    "        y = self.height * np.where(np.isnan(x), np.nan, 1.0) * ((s <= x) & (x <= e))\n        return y",
+    "a scalar fast path whose boundary operator differs from the array path (x == end)")
+mut("c02_no_carry_in_batch", ["C02", "C12"], "variable.py", '''                    else:
+                        previous_value = value_i  # type: ignore
+''', '''                    else:
+                        pass
+''', "fill-forward uses the previous call's value only (no carry inside a batch)")
+mut("c02_default_only_first", "C02", "variable.py", "            value[np.isnan(value)] = self.default_value  # type: ignore",
+    "            value[np.isnan(value) & (np.arange(value.size).reshape(value.shape) == 0)] = self.default_value  # type: ignore",
+    "default value substituted in the first row of a batch only")
+mut("c02_weighted_sum_axis", "C02", "defuzzifier.py", "        y = (weighted_sum / weights).squeeze()  # type: ignore\n        return y",
+    "        y = (weighted_sum / np.max(weights)).squeeze()  # type: ignore\n        return y",
+    "WeightedAverage normalises by the largest weight of the batch")
